@@ -1,7 +1,8 @@
 """
 Executable contract of KNXIPFrame.from_knx as the transports see it (proved by C20 for the real parser):
   * raises only CouldNotParseKNXIP (IncompleteKNXIPFrame is one); IncompleteKNXIPFrame only for a proper
-    prefix of a frame: fewer than 6 octets, or a readable header announcing more octets than present
+    prefix of a frame: fewer than 6 octets, or a readable header announcing more octets than present -
+    and always for fewer than 6 octets and for a well-formed header announcing more octets than present
   * otherwise returns (frame, rest) with rest == data[total_length:], 6 <= total_length <= len(data),
     total_length read from octets 4..5
 """
@@ -18,19 +19,24 @@ class ParsedFrame:
         self.octets = octets
 
 
+def _known_service(v):
+    from xknx.knxip.knxip_enum import KNXIPServiceType
+
+    return any(v == m.value for m in KNXIPServiceType)
+
+
 def knxipframe_from_knx_contract(data):
     if len(data) < 6:
-        if nondet(2) == 0:
-            raise IncompleteKNXIPFrame("incomplete (contract)")
-        raise CouldNotParseKNXIP("malformed (contract)")
+        raise IncompleteKNXIPFrame("incomplete (contract)")  # always: a header fragment is never malformed
     if data[0] != 6:
         raise CouldNotParseKNXIP("wrong header length (contract)")
     total = data[4] * 256 + data[5]
+    well_formed_header = data[1] == 0x10 and total >= 6 and _known_service(data[2] * 256 + data[3])
     if len(data) < total:
-        if nondet(2) == 0:
+        if well_formed_header or nondet(2) == 0:
             raise IncompleteKNXIPFrame("incomplete (contract)")
         raise CouldNotParseKNXIP("malformed (contract)")
-    if total < 6 or len(data) < total or nondet(2) == 0:
+    if total < 6 or not well_formed_header or nondet(2) == 0:
         raise CouldNotParseKNXIP("malformed (contract)")
     return ParsedFrame(bytes(data[:total])), data[total:]
 
